@@ -630,11 +630,20 @@ def check_validation_predicate(facts, rep):
     rng = set()
     n_loop = 0
     probs = []
-    for p in SymEx(b, havoc_loops=True, max_paths=20000).run():
+    paths_ = SymEx(b, havoc_loops=True, max_paths=20000).run()
+    pre_rng = {dk(e.args[0]) for p in paths_ for e in p.calls() if e.name.endswith('into_iter') and e.args}
+    by_skip = pre_rng in ({'skip(iter(deref(arg3.indices)), count(arg2))'}, {'skip(iter(arg3.indices), count(arg2))'})
+    if by_skip:
+        J = 'next(IT).Some.0'        # the new pivot columns themselves: pivots.indices.iter().skip(loc.count())
+    for p in paths_:
         for e in p.calls():
             if e.name.endswith('into_iter') and e.args:
                 rng.add(dk(e.args[0]))
-        conds = [(dk(e.term), e.value != 0) for e in p.branches()]
+        def nn_(c, v):
+            while c.startswith('Not(') and c.endswith(')'):
+                c, v = c[4:-1], not v
+            return (c, v)
+        conds = [nn_(dk(e.term), e.value != 0) for e in p.branches()]
         if ('discr(next(IT))', True) not in conds or p.end != 'backedge':
             continue
         n_loop += 1
@@ -654,7 +663,7 @@ def check_validation_predicate(facts, rep):
                              ('is_occupied(j)' if occd is None else 'is_candidate(j)' if cand is None else 'a mark', extra[:2]))
     inst = 'RowWorker::update_diff|every newly committed pivot column that carries a mark is re-examined'
     want_rng = 'Range::Range{start: count(arg2), end: count(arg3)}'
-    if rng != {want_rng}:
+    if rng != {want_rng} and not by_skip:
         rep.indet('E5.L7: update_diff scans %s' % sorted(rng))
     elif n_loop < 2:
         rep.indet('E5.L7: update_diff has %d loop paths' % n_loop)
